@@ -15,6 +15,8 @@
 package ggql
 
 import (
+	"fmt"
+	"math"
 	"strconv"
 )
 
@@ -33,38 +35,60 @@ func newIntScalar() Type {
 	}
 }
 
+// int32FromInt64 converts to an int32 or returns an error if out of range.
+func int32FromInt64(i int64) (interface{}, error) {
+	if i < math.MinInt32 || math.MaxInt32 < i {
+		return nil, fmt.Errorf("%w %d into a Int, out of range", ErrCoerce, i)
+	}
+	return int32(i), nil
+}
+
+// int32FromUint64 converts to an int32 or returns an error if out of range.
+func int32FromUint64(u uint64) (interface{}, error) {
+	if math.MaxInt32 < u {
+		return nil, fmt.Errorf("%w %d into a Int, out of range", ErrCoerce, u)
+	}
+	return int32(u), nil
+}
+
+// int32FromFloat64 truncates to an int32 or returns an error if not a number
+// or out of range.
+func int32FromFloat64(f float64) (interface{}, error) {
+	if math.IsNaN(f) || f <= math.MinInt32-1 || math.MaxInt32+1 <= f {
+		return nil, fmt.Errorf("%w %g into a Int, out of range", ErrCoerce, f)
+	}
+	return int32(f), nil
+}
+
 // CoerceIn coerces an input value into the expected input type if possible
 // otherwise an error is returned.
 func (*intScalar) CoerceIn(v interface{}) (interface{}, error) {
 	var err error
 	switch tv := v.(type) {
 	case nil:
-		// remains nil
 	case int:
-		v = int32(tv)
+		v, err = int32FromInt64(int64(tv))
 	case int8:
 		v = int32(tv)
 	case int16:
 		v = int32(tv)
 	case int32:
-		// ok as is
 	case int64:
-		v = int32(tv)
+		v, err = int32FromInt64(tv)
 	case uint:
-		v = int32(tv)
+		v, err = int32FromUint64(uint64(tv))
 	case uint8:
 		v = int32(tv)
 	case uint16:
 		v = int32(tv)
 	case uint32:
-		v = int32(tv)
+		v, err = int32FromUint64(uint64(tv))
 	case uint64:
-		v = int32(tv)
+		v, err = int32FromUint64(tv)
 	case float64:
-		// Needed for nested types since the go JSON parser always emits float64 even if an integer.
-		v = int32(tv)
-		if float64(int32(tv)) != tv {
-			err = newCoerceErr(v, "Int")
+		if v, err = int32FromFloat64(tv); err == nil && float64(v.(int32)) != tv {
+			err = newCoerceErr(tv, "Int")
+			v = nil
 		}
 	default:
 		err = newCoerceErr(v, "Int")
@@ -78,35 +102,33 @@ func (t *intScalar) CoerceOut(v interface{}) (interface{}, error) {
 	var err error
 	switch tv := v.(type) {
 	case nil:
-		// remains nil
 	case float32:
-		v = int32(tv)
+		v, err = int32FromFloat64(float64(tv))
 	case float64:
-		v = int32(tv)
+		v, err = int32FromFloat64(tv)
 	case int:
-		v = int32(tv)
+		v, err = int32FromInt64(int64(tv))
 	case int8:
 		v = int32(tv)
 	case int16:
 		v = int32(tv)
 	case int32:
-		// ok as is
 	case int64:
-		v = int32(tv)
+		v, err = int32FromInt64(tv)
 	case uint:
-		v = int32(tv)
+		v, err = int32FromUint64(uint64(tv))
 	case uint8:
 		v = int32(tv)
 	case uint16:
 		v = int32(tv)
 	case uint32:
-		v = int32(tv)
+		v, err = int32FromUint64(uint64(tv))
 	case uint64:
-		v = int32(tv)
+		v, err = int32FromUint64(tv)
 	case string:
 		var i int64
 		if i, err = strconv.ParseInt(tv, 10, 64); err == nil {
-			v = int32(i)
+			v, err = int32FromInt64(i)
 		}
 	default:
 		err = newCoerceErr(tv, "Int")
